@@ -79,6 +79,7 @@ type T struct {
 	P1   int      // extract hi / ext amount
 	P2   int      // extract lo
 	Sg   bool     // integer rendering: the term is represented by its signed value
+	PO   uint64   // width 1..64: mask of the bits that may be set (computed at construction)
 	ID   int
 }
 
@@ -103,6 +104,7 @@ type Ctx struct {
 	varBy map[string]*T
 	NOps  int
 	Hint  bool // signedness of the Go type of the value being built (integer rendering only)
+	XorNF bool // keep GF(2)-linear terms in xor normal form (xornf.go)
 }
 
 func NewCtx() *Ctx {
@@ -165,6 +167,7 @@ func (c *Ctx) mk(t T) *T {
 	}
 	c.next++
 	t.ID = c.next
+	t.PO = possibleOnes(&t)
 	r := &t
 	c.tab[k] = r
 	c.NOps++
@@ -275,6 +278,11 @@ func (c *Ctx) Bin(op Op, a, b *T) *T {
 		panic(fmt.Sprintf("term: %s on sorts %d,%d", opNames[op], a.W, b.W))
 	}
 	w := a.W
+	if c.XorNF && w <= 64 && !(a.IsConst() && b.IsConst()) {
+		if r := c.nfBin(op, a, b); r != nil {
+			return r
+		}
+	}
 	if a.IsConst() && b.IsConst() {
 		if w > 64 {
 			if r := c.wideBin(op, a, b); r != nil {
@@ -386,6 +394,12 @@ func (c *Ctx) Bin(op Op, a, b *T) *T {
 		if a == b {
 			return a
 		}
+		if w <= 64 && b.IsConst() && b.K&(b.K+1) == 0 && UBound(a, 8) <= b.K {
+			return a // masking with 2^k-1 a value already below 2^k
+		}
+		if w <= 64 && a.IsConst() && a.K&(a.K+1) == 0 && UBound(b, 8) <= a.K {
+			return b
+		}
 	case Shl, LShr, AShr:
 		if isZero(b) {
 			return a
@@ -395,6 +409,9 @@ func (c *Ctx) Bin(op Op, a, b *T) *T {
 		}
 		if b.IsConst() && b.Big == nil && b.K >= uint64(w) && op != AShr {
 			return c.BV(w, 0)
+		}
+		if op == AShr && w <= 64 && UBound(a, 8) < uint64(1)<<(w-1) {
+			op = LShr // the sign bit is known to be clear
 		}
 	case UDiv, SDiv:
 		if isOne(b) {
@@ -464,6 +481,20 @@ func (c *Ctx) Cmp(op Op, a, b *T) *T {
 			}
 		}
 	}
+	// one side a constant, the other a tree of ites over constants (a table
+	// lookup by a symbolic index): decided when every leaf agrees
+	if a.W > 0 && a.W <= 64 {
+		if r := c.cmpByLeaves(op, a, b); r != nil {
+			return r
+		}
+	}
+	// a cheap unsigned upper bound on one side settles many mask/shift guards
+	// (index bounds after "& 31", ">> 59", "% n") without a solver call
+	if a.W > 0 && a.W <= 64 {
+		if r := c.cmpByBounds(op, a, b); r != nil {
+			return r
+		}
+	}
 	// (x | y) < 2^k  <=>  x < 2^k and y < 2^k   (the "both operands are small" idiom;
 	// keeps such guards expressible in the integer rendering)
 	if (op == Ult || op == Ule) && a.Op == Or && b.IsConst() && a.W > 0 {
@@ -525,6 +556,462 @@ func (c *Ctx) Cmp(op Op, a, b *T) *T {
 
 func (c *Ctx) EqT(a, b *T) *T { return c.Cmp(Eq, a, b) }
 
+// UBound returns an unsigned upper bound of a bit-vector term of width <= 64
+// (the all-ones mask when nothing better is known).
+func UBound(t *T, depth int) uint64 {
+	if t.W <= 0 || t.W > 64 {
+		return ^uint64(0)
+	}
+	return min(t.PO, ubound0(t, depth))
+}
+
+func ubound0(t *T, depth int) uint64 {
+	m := mask(t.W)
+	if t.Op == Const {
+		return t.K
+	}
+	if depth <= 0 {
+		return m
+	}
+	pow2 := func(x uint64) uint64 { // smallest 2^k-1 >= x
+		r := uint64(0)
+		for r < x {
+			r = r<<1 | 1
+		}
+		return r
+	}
+	switch t.Op {
+	case And:
+		return min(UBound(t.A[0], depth-1), UBound(t.A[1], depth-1))
+	case Or, Xor:
+		return min(m, pow2(max(UBound(t.A[0], depth-1), UBound(t.A[1], depth-1))))
+	case LShr:
+		if t.A[1].Op == Const {
+			if t.A[1].K >= 64 {
+				return 0
+			}
+			return UBound(t.A[0], depth-1) >> t.A[1].K
+		}
+		return UBound(t.A[0], depth-1)
+	case Shl:
+		if t.A[1].Op == Const && t.A[1].K < 64 {
+			if u := UBound(t.A[0], depth-1); u <= m>>t.A[1].K {
+				return u << t.A[1].K
+			}
+		}
+	case Add:
+		ua, ub := UBound(t.A[0], depth-1), UBound(t.A[1], depth-1)
+		if ua <= m && ub <= m-ua {
+			return ua + ub
+		}
+	case AShr:
+		u := UBound(t.A[0], depth-1)
+		if u < uint64(1)<<(t.W-1) {
+			if t.A[1].Op == Const {
+				if t.A[1].K >= 64 {
+					return 0
+				}
+				return u >> t.A[1].K
+			}
+			return u
+		}
+	case URem:
+		if t.A[1].Op == Const && t.A[1].K > 0 {
+			return min(t.A[1].K-1, UBound(t.A[0], depth-1))
+		}
+	case UDiv:
+		if t.A[1].Op == Const && t.A[1].K > 0 {
+			return UBound(t.A[0], depth-1) / t.A[1].K
+		}
+	case Ite:
+		return max(UBound(t.A[1], depth-1), UBound(t.A[2], depth-1))
+	case ZExt:
+		return UBound(t.A[0], depth-1)
+	case Extract:
+		if t.P2 == 0 {
+			return min(m, UBound(t.A[0], depth-1))
+		}
+	}
+	return m
+}
+
+// tablePred recognises a Boolean combination of comparisons between one
+// constant-table lookup (see AsTable) and constants; truth[j] is its value
+// when the index is j.
+func (c *Ctx) tablePred(t *T, depth int) (x *T, truth []bool, ok bool) {
+	if depth == 0 {
+		return nil, nil, false
+	}
+	switch t.Op {
+	case BNot:
+		x, tr, ok := c.tablePred(t.A[0], depth-1)
+		if !ok {
+			return nil, nil, false
+		}
+		out := make([]bool, len(tr))
+		for j, v := range tr {
+			out[j] = !v
+		}
+		return x, out, true
+	case BAnd, BOr:
+		x1, t1, ok1 := c.tablePred(t.A[0], depth-1)
+		if !ok1 {
+			return nil, nil, false
+		}
+		x2, t2, ok2 := c.tablePred(t.A[1], depth-1)
+		if !ok2 || x1 != x2 || len(t1) != len(t2) {
+			return nil, nil, false
+		}
+		out := make([]bool, len(t1))
+		for j := range t1 {
+			if t.Op == BAnd {
+				out[j] = t1[j] && t2[j]
+			} else {
+				out[j] = t1[j] || t2[j]
+			}
+		}
+		return x1, out, true
+	case Eq, Ult, Ule, Slt, Sle:
+		a, b := t.A[0], t.A[1]
+		var tree, k *T
+		flip := false
+		switch {
+		case b.IsConst() && b.Big == nil && a.Op == Ite:
+			tree, k = a, b
+		case a.IsConst() && a.Big == nil && b.Op == Ite:
+			tree, k, flip = b, a, true
+		default:
+			return nil, nil, false
+		}
+		x, vals, ok := AsTable(tree)
+		if !ok {
+			return nil, nil, false
+		}
+		out := make([]bool, len(vals))
+		for j, v := range vals {
+			l, r := c.BV(tree.W, v), k
+			if flip {
+				l, r = r, l
+			}
+			out[j] = c.Cmp(t.Op, l, r).IsTrue()
+		}
+		return x, out, true
+	}
+	return nil, nil, false
+}
+
+// tableFold decides a conjunction/disjunction of table predicates over the
+// same index when it is constant over the whole table.
+func (c *Ctx) tableFold(op Op, a, b *T) *T {
+	cmpLike := func(t *T) bool {
+		switch t.Op {
+		case Eq, Ult, Ule, Slt, Sle, BNot, BAnd, BOr:
+			return true
+		}
+		return false
+	}
+	if !cmpLike(a) || !cmpLike(b) {
+		return nil
+	}
+	x1, t1, ok := c.tablePred(a, 4)
+	if !ok {
+		return nil
+	}
+	x2, t2, ok := c.tablePred(b, 4)
+	if !ok || x1 != x2 || len(t1) != len(t2) {
+		return nil
+	}
+	nt := 0
+	for j := range t1 {
+		v := t1[j] && t2[j]
+		if op == BOr {
+			v = t1[j] || t2[j]
+		}
+		if v {
+			nt++
+		}
+	}
+	if nt == 0 {
+		return c.False()
+	}
+	if nt == len(t1) {
+		return c.True()
+	}
+	return nil
+}
+
+// AsTable recognises a lookup of a constant table by a symbolic index: an ite
+// spine ite(x==j0, v0, ite(x==j1, v1, ... vLast)) with constant leaves, where
+// x is a bit-vector whose upper bound is small.  vals[j] is the value for
+// x == j, for every j in 0..UBound(x).
+func AsTable(t *T) (x *T, vals []uint64, ok bool) {
+	if t.Op != Ite || t.W <= 0 || t.W > 64 {
+		return nil, nil, false
+	}
+	byIdx := map[uint64]uint64{}
+	for n := 0; t.Op == Ite; n++ {
+		g := t.A[0]
+		if n > 256 || g.Op != Eq || !g.A[1].IsConst() || g.A[1].Big != nil || g.A[0].W <= 0 || g.A[0].W > 64 {
+			return nil, nil, false
+		}
+		if x == nil {
+			x = g.A[0]
+		} else if x != g.A[0] {
+			return nil, nil, false
+		}
+		if t.A[1].Op != Const || t.A[1].Big != nil {
+			return nil, nil, false
+		}
+		if _, dup := byIdx[g.A[1].K]; !dup {
+			byIdx[g.A[1].K] = t.A[1].K
+		}
+		t = t.A[2]
+	}
+	if t.Op != Const || t.Big != nil {
+		return nil, nil, false
+	}
+	ub := UBound(x, 8)
+	if ub > 255 {
+		return nil, nil, false
+	}
+	vals = make([]uint64, ub+1)
+	for j := range vals {
+		if v, has := byIdx[uint64(j)]; has {
+			vals[j] = v
+		} else {
+			vals[j] = t.K
+		}
+	}
+	return x, vals, true
+}
+
+// TableT builds the lookup vals[x] (width w) for an index x known to be
+// below len(vals); the identity table is x itself.
+func (c *Ctx) TableT(x *T, vals []uint64, w int) *T {
+	ident, same := true, true
+	for j, v := range vals {
+		if v != uint64(j) {
+			ident = false
+		}
+		if v != vals[0] {
+			same = false
+		}
+	}
+	if same {
+		return c.BV(w, vals[0])
+	}
+	if ident {
+		switch {
+		case x.W == w:
+			return x
+		case x.W < w:
+			return c.ZExtT(x, w)
+		default:
+			return c.ExtractT(x, w-1, 0)
+		}
+	}
+	r := c.BV(w, vals[len(vals)-1])
+	for j := len(vals) - 2; j >= 0; j-- {
+		r = c.IteT(c.EqT(x, c.BV(x.W, uint64(j))), c.BV(w, vals[j]), r)
+	}
+	return r
+}
+
+// constLeaves collects the distinct constant leaves of an ite tree (nil if a
+// leaf is not constant or there are more than limit distinct ite nodes).
+func constLeaves(t *T, seen map[*T]bool, out map[uint64]bool) bool {
+	for t.Op == Ite {
+		if seen[t] {
+			return true
+		}
+		seen[t] = true
+		if len(seen) > 256 {
+			return false
+		}
+		if !constLeaves(t.A[1], seen, out) {
+			return false
+		}
+		t = t.A[2]
+	}
+	if t.Op != Const || t.Big != nil {
+		return false
+	}
+	out[t.K] = true
+	return true
+}
+
+func (c *Ctx) cmpByLeaves(op Op, a, b *T) *T {
+	var tree, k *T
+	flip := false
+	switch {
+	case b.IsConst() && a.Op == Ite:
+		tree, k = a, b
+	case a.IsConst() && b.Op == Ite:
+		tree, k, flip = b, a, true
+	default:
+		return nil
+	}
+	if x, vals, ok := AsTable(tree); ok {
+		// a table lookup compared with a constant is a condition on the index
+		var hit []int
+		for j, v := range vals {
+			l, r := c.BV(tree.W, v), k
+			if flip {
+				l, r = r, l
+			}
+			if c.Cmp(op, l, r).IsTrue() {
+				hit = append(hit, j)
+			}
+		}
+		switch {
+		case len(hit) == 0:
+			return c.False()
+		case len(hit) == len(vals):
+			return c.True()
+		case len(hit) <= 4:
+			r := c.False()
+			for _, j := range hit {
+				r = c.OrB(r, c.EqT(x, c.BV(x.W, uint64(j))))
+			}
+			return r
+		case len(vals)-len(hit) <= 4:
+			r := c.True()
+			isHit := map[int]bool{}
+			for _, j := range hit {
+				isHit[j] = true
+			}
+			for j := range vals {
+				if !isHit[j] {
+					r = c.AndB(r, c.NotB(c.EqT(x, c.BV(x.W, uint64(j)))))
+				}
+			}
+			return r
+		}
+		return nil
+	}
+	leaves := map[uint64]bool{}
+	if !constLeaves(tree, map[*T]bool{}, leaves) {
+		return nil
+	}
+	nt, nf := 0, 0
+	for v := range leaves {
+		x, y := c.BV(tree.W, v), k
+		if flip {
+			x, y = y, x
+		}
+		if c.Cmp(op, x, y).IsTrue() {
+			nt++
+		} else {
+			nf++
+		}
+	}
+	if nf == 0 {
+		return c.True()
+	}
+	if nt == 0 {
+		return c.False()
+	}
+	if op == Eq {
+		// table[i] == k: push the comparison to the leaves, which leaves a
+		// condition on the index alone
+		memo := map[*T]*T{}
+		var push func(t *T) *T
+		push = func(t *T) *T {
+			if t.Op != Ite {
+				return c.Bool(t.K == k.K)
+			}
+			if r, ok := memo[t]; ok {
+				return r
+			}
+			r := c.IteT(t.A[0], push(t.A[1]), push(t.A[2]))
+			memo[t] = r
+			return r
+		}
+		return push(tree)
+	}
+	return nil
+}
+
+func (c *Ctx) cmpByBounds(op Op, a, b *T) *T {
+	half := uint64(1) << (a.W - 1)
+	if b.IsConst() {
+		ua := UBound(a, 8)
+		if ua == mask(a.W) {
+			return nil
+		}
+		switch op {
+		case Ult:
+			if ua < b.K {
+				return c.True()
+			}
+		case Ule:
+			if ua <= b.K {
+				return c.True()
+			}
+		case Slt:
+			if ua < half && b.K == 0 {
+				return c.False() // a is non-negative
+			}
+			if ua < half && b.K < half && ua < b.K {
+				return c.True()
+			}
+			if ua < half && b.K >= half { // b negative, a non-negative
+				return c.False()
+			}
+		case Sle:
+			if ua < half && b.K < half && ua <= b.K {
+				return c.True()
+			}
+			if ua < half && b.K >= half {
+				return c.False()
+			}
+		case Eq:
+			if ua < b.K {
+				return c.False()
+			}
+		}
+		return nil
+	}
+	if a.IsConst() {
+		ub := UBound(b, 8)
+		if ub == mask(b.W) {
+			return nil
+		}
+		switch op {
+		case Ult:
+			if ub <= a.K {
+				return c.False()
+			}
+		case Ule:
+			if ub < a.K {
+				return c.False()
+			}
+		case Slt:
+			if ub < half && a.K < half && ub <= a.K {
+				return c.False()
+			}
+			if ub < half && a.K >= half { // a negative, b non-negative
+				return c.True()
+			}
+		case Sle:
+			if ub < half && a.K == 0 {
+				return c.True() // b is non-negative
+			}
+			if ub < half && a.K < half && ub < a.K {
+				return c.False()
+			}
+			if ub < half && a.K >= half {
+				return c.True()
+			}
+		case Eq:
+			if ub < a.K {
+				return c.False()
+			}
+		}
+	}
+	return nil
+}
+
 // constArms reports whether t is a (nested, depth-limited) ite whose leaves are constants.
 func constArms(t *T, depth int) bool {
 	if t.IsConst() {
@@ -564,6 +1051,9 @@ func (c *Ctx) AndB(a, b *T) *T {
 	if a == b {
 		return a
 	}
+	if r := c.tableFold(BAnd, a, b); r != nil {
+		return r
+	}
 	if a.ID > b.ID {
 		a, b = b, a
 	}
@@ -582,6 +1072,9 @@ func (c *Ctx) OrB(a, b *T) *T {
 	}
 	if a == b {
 		return a
+	}
+	if r := c.tableFold(BOr, a, b); r != nil {
+		return r
 	}
 	if a.ID > b.ID {
 		a, b = b, a
@@ -604,6 +1097,11 @@ func (c *Ctx) IteT(g, a, b *T) *T {
 	if a == b {
 		return a
 	}
+	if c.XorNF && a.W > 0 && a.W <= 64 {
+		if r := c.nfIte(g, a, b); r != nil {
+			return r
+		}
+	}
 	if a.W == 0 {
 		if a.IsTrue() && b.IsFalse() {
 			return g
@@ -616,6 +1114,12 @@ func (c *Ctx) IteT(g, a, b *T) *T {
 		}
 		if b.IsFalse() {
 			return c.AndB(g, a)
+		}
+		if a.IsFalse() {
+			return c.AndB(c.NotB(g), b)
+		}
+		if b.IsTrue() {
+			return c.OrB(c.NotB(g), a)
 		}
 	}
 	return c.mk(T{Op: Ite, W: a.W, A: []*T{g, a, b}})
@@ -662,6 +1166,11 @@ func (c *Ctx) ExtractT(a *T, hi, lo int) *T {
 			return c.ExtractT(a.A[0], hi, lo)
 		}
 	}
+	if c.XorNF && lo == 0 && a.W <= 64 {
+		if r := c.nfExtract(a, hi); r != nil {
+			return r
+		}
+	}
 	return c.mk(T{Op: Extract, W: w, A: []*T{a}, P1: hi, P2: lo})
 }
 
@@ -694,6 +1203,11 @@ func (c *Ctx) ZExtT(a *T, w int) *T {
 	}
 	if a.Op == ZExt {
 		return c.ZExtT(a.A[0], w)
+	}
+	if c.XorNF && w <= 64 {
+		if r := c.nfZExt(a, w); r != nil {
+			return r
+		}
 	}
 	return c.mk(T{Op: ZExt, W: w, A: []*T{a}, P1: w - a.W})
 }
